@@ -595,7 +595,7 @@ class CheckC05(Check):
     def generate(self, r, seed, tier):
         algo = gen.weighted(r, [("T_HOO", 3), ("HCT", 3), ("VHCT", 3), ("POO", 1.5), ("GPO", 1)])
         n = gen.gen_budget(r, 100, 600 if tier == "thorough" else 300)
-        kinds = ["const", "int", "fewlevels", "gauss", "obj", "neg", "unit", "zero", "late", "altsign", "objneg", "edge"]
+        kinds = ["const", "int", "fewlevels", "gauss", "obj", "neg", "unit", "zero", "late", "altsign", "objneg", "edge", "decimal", "decimal"]
         sc = gen.base_scenario(r, seed, algo, n=n, ok_only=True, reward_kinds=kinds, sched_prob=0.2 if algo != "GPO" else 0.0,
                                mid_prob=0.4, neighbour_prob=0.25)
         if algo == "GPO" and derived(sc).get("gpo_L_zero"):
@@ -873,6 +873,11 @@ class CheckC10(Check):
 
     def generate(self, r, seed, tier):
         n = gen.gen_budget(r, 100, 600) if tier == "quick" or r.random() < 0.7 else r.choice([1000, 1500, 3000])
+        k = r.random()
+        if k < 0.08:
+            n = r.randint(4, 99)            # small declared budgets: the horizon binds inside the first creation phases
+        elif k < 0.14 and tier == "quick":
+            n = r.choice([1000, 1000, r.randint(700, 1700)])    # the constructor's default budget, carried to its end
         sc = gen.base_scenario(r, seed, "POO", n=n, ok_only=True, sched_prob=0.5, mid_prob=0.5, neighbour_prob=0.2)
         sc["params"]["rhomax"] = r.uniform(0.84, 0.985)
         if r.random() < 0.7:
@@ -1269,6 +1274,20 @@ class CheckC16(TwinCheck):
         if zoom_tol:
             sc["depth_guard"] = 40
         return sc
+
+    def legal(self, sc):
+        """Shrunk twin scenarios must stay inside the statement: default-delta DOO is exempt from scaling, and the two
+        coordinate-comparing algorithms are judged under inexact maps only in the Zooming tolerance family."""
+        A = sc["A"]
+        doo_default = A["algo"] == "DOO" and (A.get("params") or {}).get("delta") is None
+        if doo_default and sc.get("scale", 1.0) != 1.0:
+            return False
+        if (doo_default or A["algo"] == "Zooming") and sc.get("cls") == "tol":
+            return (A["algo"] == "Zooming" and sc.get("depth_guard") is not None
+                    and A["partition"]["cls"] in ("BinaryPartition", "DimensionBinaryPartition"))
+        if len(sc.get("shift") or []) != len(A["domain"]):
+            return False
+        return True
 
     def distinct_key(self, sc, res):
         return TwinCheck.distinct_key(self, sc, res) + (sc.get("mode"),)
